@@ -77,36 +77,41 @@ func VerifC09Redeliver() {
 			vAssert("written-unacknowledged-message-has-inflight-record", ok)
 		}
 	}
-	// connection drops, client reconnects with the session
-	cl.Stop(nil)
-	cl2, _, present := vConnectClient(s, "c1", 5, false, 8)
-	vAssert("session-present", present)
-	_ = cl2.ResendInflightMessages(true)
-	vFlush(cl2)
-	w := vParseWire(vConnWritten(cl2.Net.Conn), 5)
-	vAssert("resend-transcript-parses", w.Trailing == 0)
-	for id, st := range state {
-		npub, nrel := 0, 0
-		for _, p := range w.Pkts {
-			if p.HasID && p.ID == id {
-				if p.Type == packets.Publish {
-					npub++
-					vAssert("redelivery-sets-dup", p.Flags&8 != 0)
-					vAssert("redelivery-has-original-payload", len(p.Payload) == 1 && p.Payload[0] == pay[id])
-				}
-				if p.Type == packets.Pubrel {
-					nrel++
+	// the connection drops and the client reconnects with the session, RECON times without acknowledging anything
+	prev := cl
+	var w vWire
+	for r := 0; r < vParam("RECON", 2); r++ {
+		prev.Stop(nil)
+		cl2, _, present := vConnectClient(s, "c1", 5, false, 8)
+		vAssert("session-present", present)
+		_ = cl2.ResendInflightMessages(true)
+		vFlush(cl2)
+		w = vParseWire(vConnWritten(cl2.Net.Conn), 5)
+		vAssert("resend-transcript-parses", w.Trailing == 0)
+		for id, st := range state {
+			npub, nrel := 0, 0
+			for _, p := range w.Pkts {
+				if p.HasID && p.ID == id {
+					if p.Type == packets.Publish {
+						npub++
+						vAssert("redelivery-sets-dup", p.Flags&8 != 0)
+						vAssert("redelivery-has-original-payload", len(p.Payload) == 1 && p.Payload[0] == pay[id])
+					}
+					if p.Type == packets.Pubrel {
+						nrel++
+					}
 				}
 			}
+			switch st {
+			case 0:
+				vAssert("acknowledged-message-never-resent", npub == 0 && nrel == 0)
+			case 1:
+				vAssert("unacknowledged-publish-redelivered-once-with-original-id", npub == 1 && nrel == 0)
+			case 2:
+				vAssert("after-pubrec-pubrel-is-resent-not-publish", npub == 0 && nrel == 1)
+			}
 		}
-		switch st {
-		case 0:
-			vAssert("acknowledged-message-never-resent", npub == 0 && nrel == 0)
-		case 1:
-			vAssert("unacknowledged-publish-redelivered-once-with-original-id", npub == 1 && nrel == 0)
-		case 2:
-			vAssert("after-pubrec-pubrel-is-resent-not-publish", npub == 0 && nrel == 1)
-		}
+		prev = cl2
 	}
 	// messages never written (still deferred) must also survive: every message is either acknowledged,
 	// known to the client, or sent now
